@@ -92,11 +92,14 @@ CLAIMED = {
         "Coq theorems on the string functions + exhaustive boundary-grid differential check with a spec monitor"),
     "C08": entry(
         "every Integer operation (+ - * \\ MOD, ^ with non-negative Integer exponent, unary minus) returns the exact mathematical result in "
-        "-32768..32767 or OVERFLOW / DIVISION BY ZERO, for all operands (Props/C08.v, Proofs/Int16.v; lia/nia, induction for ^).",
+        "-32768..32767 or OVERFLOW / DIVISION BY ZERO, for all operands; conversion of a Single or Double to Integer, for every bit pattern, is the floor "
+        "of the number when that lies in -32768..32767 and OVERFLOW otherwise (infinities and NaN included), never a wrapped or truncated value "
+        "(Props/C08.v, Proofs/Int16.v, Proofs/FloatToInt.v: from Flocq's correctness theorems).",
         "operation.rs / function.rs / val.rs in both build profiles: all 65536 values for unary operations, a 64x64 boundary grid and random pairs "
         "for binary ones, floats around the conversion limits; exact integer arithmetic in Python as the monitor.",
-        "Float to Integer conversion is covered by the differential sweep and the monitor, not by a theorem.",
-        "Coq proof over Z (lia/nia, induction) + model/implementation differential check"),
+        "ABS and the other numeric functions on Integers are covered by the differential sweep and the monitor; conversions with bounds of 2^24 and more "
+        "(to u32 / usize, used for string positions) are outside the conversion theorem.",
+        "Coq proof over Z (lia/nia, induction) and over Flocq's binary32/binary64 + model/implementation differential check"),
     "C09": entry(
         "one READ takes the constant under the pointer and advances it by one, touching nothing else; k READs deliver the next k constants in order; "
         "reading past the end is OUT OF DATA and changes nothing; RESTORE sets the pointer to the resolved data address, CLEAR rewinds it; a line's "
